@@ -54,6 +54,8 @@ func rewritePkg(ov *overlay, gen, kind, pkg string) {
 		rewriteRanges(ov, gen, kv[0], strings.Split(kv[1], "+"))
 	case "vorder":
 		rewriteVorder(ov, gen, pkg)
+	case "vgo":
+		rewriteVgo(ov, gen, pkg)
 	case "fakec":
 		kv := strings.SplitN(pkg, "=", 2)
 		if len(kv) != 2 {
@@ -566,4 +568,70 @@ func rewriteFakeC(ov *overlay, gen, pkg, support string) {
 func fileExists(p string) bool {
 	st, err := os.Stat(p)
 	return err == nil && !st.IsDir()
+}
+
+
+// rewriteVgo ("vgo:<pkgdir>"): `go f(args)` becomes `vsched__.Go(func() { f(args) })` and every
+// receive expression `<-ch` becomes `vsched__.Recv(ch)` (package verif_h/vsched), so that the
+// goroutines a package starts and their joins are threads and blocking points of the cooperative
+// scheduler. Same-line splices; the import is added on the line of the package clause. Apply
+// before vsync for the same package (both work on the current copy of a file).
+func rewriteVgo(ov *overlay, gen, pkg string) {
+	dir := filepath.Join(*repo, pkg)
+	ents, err := os.ReadDir(dir)
+	must(err)
+	vpath := modulePath() + "/verif_h/vsched"
+	n := 0
+	for _, e := range ents {
+		name := e.Name()
+		if e.IsDir() || !strings.HasSuffix(name, ".go") || strings.HasSuffix(name, "_test.go") {
+			continue
+		}
+		rel := filepath.Join(pkg, name)
+		abs := filepath.Join(*repo, rel)
+		if r, ok := ov.Replace[abs]; ok && r == "" {
+			continue
+		}
+		from := src(ov, rel)
+		b, err := os.ReadFile(from)
+		must(err)
+		fset := token.NewFileSet()
+		f, err := parser.ParseFile(fset, from, b, 0)
+		if err != nil {
+			die("vgo: parse %s: %v", from, err)
+		}
+		var sp []splice
+		ast.Inspect(f, func(nd ast.Node) bool {
+			switch x := nd.(type) {
+			case *ast.GoStmt:
+				lo, hi := fset.Position(x.Pos()).Offset, fset.Position(x.End()).Offset
+				call := string(b[fset.Position(x.Call.Pos()).Offset:hi])
+				sp = append(sp, splice{lo, hi, "vsched__.Go(func() { " + call + " })"})
+				return false
+			case *ast.UnaryExpr:
+				if x.Op == token.ARROW {
+					lo, hi := fset.Position(x.Pos()).Offset, fset.Position(x.End()).Offset
+					op := string(b[fset.Position(x.X.Pos()).Offset:hi])
+					sp = append(sp, splice{lo, hi, "vsched__.Recv(" + op + ")"})
+					return false
+				}
+			}
+			return true
+		})
+		if len(sp) == 0 {
+			continue
+		}
+		sort.Slice(sp, func(i, j int) bool { return sp[i].from > sp[j].from })
+		for _, s := range sp {
+			b = append(append(append([]byte{}, b[:s.from]...), s.text...), b[s.to:]...)
+		}
+		pkgEnd := fset.Position(f.Name.End()).Offset
+		b = append(append(append([]byte{}, b[:pkgEnd]...), []byte("; import vsched__ \""+vpath+"\"")...), b[pkgEnd:]...)
+		dst := filepath.Join(gen, "rewrite", rel)
+		must(os.MkdirAll(filepath.Dir(dst), 0o755))
+		must(os.WriteFile(dst, b, 0o644))
+		ov.Replace[abs] = dst
+		n += len(sp)
+	}
+	fmt.Fprintf(os.Stderr, "mkoverlay: vgo %s: %d go statements / receives rewritten\n", pkg, n)
 }
